@@ -103,6 +103,11 @@ def decode(n):
         return [decode(x) for x in seq(n["a"])]
     if k == "obj":
         return {key: decode(x) for key, x in fun(n["f"]).items()}
+    if k == "deep":                       # an object nested n levels deep (LspValue.JEq), expanded for the implementation
+        v = None
+        for _ in range(n["n"]):
+            v = {"d": v}
+        return v
     raise ValueError("not a JSON node: %r" % (n,))
 
 
